@@ -27,6 +27,26 @@ NUC = "ACGT"
 
 
 # ---------------------------------------------------------------- encoders (python -> token)
+def big_int(s):
+    """int(s) for the harness' own use, beyond CPython's default 4300-digit limit (the library is
+    always called under the default limit)."""
+    old = sys.get_int_max_str_digits()
+    sys.set_int_max_str_digits(0)
+    try:
+        return int(s)
+    finally:
+        sys.set_int_max_str_digits(old)
+
+
+def big_str(n):
+    old = sys.get_int_max_str_digits()
+    sys.set_int_max_str_digits(0)
+    try:
+        return str(int(n))
+    finally:
+        sys.set_int_max_str_digits(old)
+
+
 def dash(s):
     return s if s != "" else "-"
 
@@ -209,28 +229,32 @@ def run_impl(line, extra=None):
     `extra` may carry Python-only side information (float gc range for `flt`)."""
     t = line.split(" ")
     op = t[0]
+    def plain(fn):
+        st, v = guarded(fn, 60)
+        return v if st == "ok" else ("err TIMEOUT" if st == "timeout" else "err " + v)
     if op == "add":
-        return OP.calculus_addition(t[1], t[2])
+        return plain(lambda: OP.calculus_addition(t[1], t[2]))
     if op == "sub":
-        return OP.calculus_subtraction(t[1], t[2])
+        return plain(lambda: OP.calculus_subtraction(t[1], t[2]))
     if op == "mul":
-        return OP.calculus_multiplication(t[1], t[2])
+        return plain(lambda: OP.calculus_multiplication(t[1], t[2]))
     if op == "div":
-        q, r = OP.calculus_division(t[1], t[2])
-        return q + " " + r
+        return plain(lambda: " ".join(OP.calculus_division(t[1], t[2])))
     if op == "b2n":
         bits = dec_bits(t[1])
-        return OP.bit_to_number(bits, is_string=True) + " " + str(int(OP.bit_to_number(bits, is_string=False)))
+        return OP.bit_to_number(bits, is_string=True) + " " + big_str(OP.bit_to_number(bits, is_string=False))
     if op == "n2b":
-        s = guarded(lambda: OP.number_to_bit(t[1], int(t[2])))
-        return render(*s, enc_bits) + " | " + enc_bits(OP.number_to_bit(int(t[1]), int(t[2])))
+        s = guarded(lambda: OP.number_to_bit(t[1], int(t[2])), 240)
+        n_int = big_int(t[1])
+        return render(*s, enc_bits) + " | " + enc_bits(OP.number_to_bit(n_int, int(t[2])))
     if op == "d2n":
         s = guarded(lambda: OP.dna_to_number(undash(t[1]), is_string=True))
         i = guarded(lambda: OP.dna_to_number(undash(t[1]), is_string=False))
-        return render(*s, str) + " | " + render(*i, str)
+        return render(*s, str) + " | " + render(*i, big_str)
     if op == "n2d":
-        s = guarded(lambda: OP.number_to_dna(t[1], int(t[2])))
-        return render(*s, dash) + " | " + dash(OP.number_to_dna(int(t[1]), int(t[2])))
+        s = guarded(lambda: OP.number_to_dna(t[1], int(t[2])), 240)
+        n_int = big_int(t[1])
+        return render(*s, dash) + " | " + dash(OP.number_to_dna(n_int, int(t[2])))
     if op == "latters":
         return show_nats(GZ.obtain_latters(int(t[2]), int(t[1])))
     if op == "formers":
